@@ -267,3 +267,39 @@ func VerifC17StateID() {
 	s := m.StagingState()
 	rt.Assert("c17.state.id", s.ID == p.ID() && s.Version == 0)
 }
+
+// VerifC17DecodeValidates: the decoder refuses exactly what NewParams refuses:
+// a well-formed encoding of parameters that violate one documented constraint
+// (built as a plain struct, encoded with the real Encode) is an error, not a
+// parameter set with an ID and not a panic.
+func VerifC17DecodeValidates() {
+	a := gen.Address(1)
+	full := func() map[wallet.BackendID]wallet.Address {
+		return map[wallet.BackendID]wallet.Address{channel.TestBackendID: a}
+	}
+	p := &channel.Params{ChallengeDuration: 1 + uint64(rt.NondetU8()), Parts: []map[wallet.BackendID]wallet.Address{full(), full()},
+		App: channel.NoApp(), Nonce: big.NewInt(5), LedgerChannel: true}
+	bad := true
+	switch rt.Choice(6) {
+	case 0: // valid (control)
+		bad = false
+	case 1:
+		p.ChallengeDuration = 0
+	case 2: // a participant without an address
+		p.Parts[rt.Choice(2)] = map[wallet.BackendID]wallet.Address{}
+	case 3: // a single participant
+		p.Parts = p.Parts[:1]
+	case 4: // nonce one byte too long
+		p.Nonce = rt.NondetBigExact(channel.MaxNonceLen + 1)
+	case 5: // three participants, the last without an address
+		p.Parts = append(p.Parts, map[wallet.BackendID]wallet.Address{})
+	}
+	var buf bytes.Buffer
+	rt.Assume(p.Encode(&buf) == nil)
+	var q channel.Params
+	var err error
+	panicked := rt.Try(func() { err = q.Decode(&buf) })
+	rt.Reach("c17.dec")
+	rt.Assert("c17.dec.nopanic", !panicked)
+	rt.Assert("c17.dec.refuses-invalid", panicked || (err != nil) == bad)
+}
